@@ -134,6 +134,10 @@ func (c *Authority) VerifyQuorumCert(qc hotstuff.QuorumCert) error {
 	if !ok {
 		return fmt.Errorf("block not found: %v", qc.BlockHash())
 	}
+	// the signatures only cover the block; the view the certificate claims must be the block's view
+	if block.View() != qc.View() {
+		return fmt.Errorf("quorum certificate view %d does not match the view %d of block %v", qc.View(), block.View(), qc.BlockHash())
+	}
 	return c.Verify(qc.Signature(), block.ToBytes())
 }
 
